@@ -472,8 +472,10 @@ def rot_kind(rng):
     """rotation leaf: generic, or within 1e-9 of 0 / of pi, or exactly 0 / pi / quarter turns"""
     r = rng.random()
     ax = rand_unit(rng) if rng.random() < 0.7 else np.eye(3)[rng.integers(3)] * rng.choice([-1.0, 1.0])
-    if r < 0.5:
+    if r < 0.42:
         th, kind = rng.uniform(0.05, math.pi - 0.05), 'generic'
+    elif r < 0.5:
+        th, kind = log_uniform(rng, 1e-6, 5e-2), 'small'
     elif r < 0.62:
         th, kind = log_uniform(rng, 1e-12, 1e-9), 'near0'
     elif r < 0.74:
